@@ -387,4 +387,12 @@ Section Expand.
          lf_trig := tg_or (l_trig x)
                       {| tg_race := existsb has_race (l_outs x); tg_excl_cycle := false; tg_union := false;
                          tg_inter := false; tg_excl := false; tg_merge := false |} |}.
+
+  (* what the result limit counts: the number of distinct keys (HasRelationship or not) that reach
+     foundUsersUnique, for every possible content of the top-level channel.  The collector stops
+     when len(foundUsersUnique) >= maxResults, so a limit above this number never applies. *)
+  Definition list_users_nkeys (pruned : bool) (o : obj) (r : rid) : list nat :=
+    if pruned && negb (N.eqb (otype o) ftype && N.eqb r frel)
+    then [O]
+    else map (fun c => length (sdedup (map f_user c))) (l_outs (expand (S (S limit)) O [] o r)).
 End Expand.
